@@ -6,7 +6,7 @@ import random
 import sys
 from fractions import Fraction
 
-from vf.runner import use_repo, ToolError, h64
+from vf.runner import use_repo, ToolError, h64, Ctx
 from vf.refproto import codec as ref
 from vf.refproto import position as refpos
 from vf import explore, interleave
@@ -81,7 +81,46 @@ RULE = (
     'a fresh fork of a worker that has executed no codec before, with every '
     'BYTECODE INSTRUCTION of the four modules a scheduling point, all '
     'schedules with at most 1 preemption (thorough: additionally line '
-    'points with at most 2 on the quick pairs).')
+    'points with at most 2 on the quick pairs).  Context dispatch: '
+    'minecraft/utility.py (the descriptor behind every inherited '
+    '*_with_context) is among the modules with scheduling points; 6 pairs '
+    '(thorough: all 27 pairs of 8 operations on different types) of '
+    'T.send_with_context / T.read_with_context calls on two DIFFERENT types, '
+    'looked up on the class (Integer, Short, String, VarLong; the Byte '
+    'elements of an array) or on an instance (a FixedPoint, '
+    'UnsignedShort()), are run by two threads with every bytecode '
+    'instruction a scheduling point, at most 1 preemption (thorough: also '
+    'line points with at most 2 on the quick pairs), each execution in a '
+    'fresh fork; both threads must observe the reference result, and so '
+    'must three single-threaded calls afterwards: both operations again, '
+    'in either order (each type gets to be the first to meet what the race '
+    'left behind), then a third type (thorough: also third type first).  '
+    'Construction histories: for FixedPoint over Byte, Short and Integer '
+    'and for PrefixedArray, every sequence of 3 constructions (repetitions '
+    'included, 216 each) out of 6 parameterisations (FixedPoint: (B), '
+    '(B, 12), (B, fractional_bits=12), (B, fractional_bits=3), '
+    '(integer_type=B, fractional_bits=8), (another base, 12); '
+    'PrefixedArray: positional, keyword and mixed spellings over 3 length '
+    'types and Byte/Short/String/nested elements); after every step '
+    '(second variant: only after the last; thorough: after every subset of '
+    'the first two) EVERY object made so far encodes and decodes 3..10 '
+    'values through both entry points and is judged against the reference '
+    'for its own parameters.  Failure and re-entrancy histories: for every '
+    'ordered pair (A, B) of 14 representatives (Boolean, Byte, Integer, '
+    'Long, Double, VarInt, String, UUID, Angle, FixedPoint(Short,12), '
+    'Position, both byte arrays, PrefixedArray(Short,String)): A is sent '
+    'into a sink whose send() raises BrokenPipeError / InterruptedError / '
+    'KeyError at its call k = 1, 2 (thorough: 3), or read from a stream '
+    'whose read() raises ConnectionResetError / InterruptedError / KeyError '
+    'or hits the end of the stream at call k; or A is sent into a sink '
+    'whose send() encodes B into the buffer before forwarding each chunk '
+    '(the buffer must hold <B><chunk> for every chunk the sink received '
+    'and the chunks must be A\'s encoding); then B (another value) is sent '
+    '/ read through both entry points and A again: all as the reference '
+    'says.  Histories run 8 (constructions; thorough: 1) / 23 (failures) '
+    'after the other in a fresh fork of a process that has only imported '
+    'the library; a reported case names the histories that ran before it '
+    'in its process.')
 ASSUMPTIONS = [
     'non-termination of an encoder is judged by a horizon of 2,000,000 traced '
     'line events per send (the largest enumerated case, a 32767-element '
@@ -97,8 +136,11 @@ ASSUMPTIONS = [
     'FixedPoint is not used as a PrefixedArray element type (pyCraft never '
     'does); a hang inside C code (struct, BytesIO) cannot be detected',
     'thread switches are explored at source-line granularity (at bytecode '
-    'granularity for the byte-array pairs after the warm-up history); a '
+    'granularity for the byte-array pairs after the warm-up history and '
+    'for the context-dispatch pairs); a '
     'warm-up of 70 sizes fills size-bounded caches of up to 70 entries',
+    'after a failed send or read only the later operations are judged '
+    '(what reached the failing sink is not)',
 ]
 
 HORIZON = 2000000
@@ -340,9 +382,13 @@ def feq(a, b):
 
 def same(spec, got, exp):
     if isinstance(spec, str):
-        if spec in INTS or spec == 'VarInt':
+        if spec in INTS or spec in ('VarInt', 'VarLong'):
             return isinstance(got, int) and not isinstance(got, bool) \
                 and got == exp
+        if spec == 'Angle':         # (only used with exact grid values)
+            return isinstance(got, (int, float)) and \
+                not isinstance(got, bool) and math.isfinite(got) and \
+                abs(Fraction(got) - Fraction(exp)) <= EPS
         if spec == 'Boolean':
             return isinstance(got, (bool, int)) and got == exp
         if spec in ('Float', 'Double'):
@@ -428,8 +474,9 @@ def report(ctx):
 
 # -- single-case checks ---------------------------------------------------------
 
-def judge_send(R, spec, res_list, want, rank, ident, case, shown):
-    fam, nm = family(spec), name(spec)
+def judge_send(R, spec, res_list, want, rank, ident, case, shown, fam=None,
+               nm=None):
+    fam, nm = fam or family(spec), nm or name(spec)
     for via, res in res_list:
         R.ctx.outcome('enc-' + (res[0] if res[0] != 'raise'
                                 else 'raise:' + res[1]))
@@ -455,9 +502,12 @@ def hexs(b):
                                                             len(b))
 
 
-def check_value(R, spec, v, proto=None, rank=None):
-    """Encode v and decode the reference encoding of v.  -> reference bytes"""
-    T = build(spec)
+def check_value(R, spec, v, proto=None, rank=None, obj=None):
+    """Encode v and decode the reference encoding of v.  -> reference bytes.
+    obj: {'T': the type object to use instead of build(spec), 'tag': text
+    appended to the failure class, 'where': text appended to the identity,
+    'case': the replayable case}."""
+    T = obj['T'] if obj else build(spec)
     fam, nm = family(spec), name(spec)
     want = ref_encode(spec, v, proto)
     if isinstance(spec, str):
@@ -468,8 +518,13 @@ def check_value(R, spec, v, proto=None, rank=None):
     at = '@%d' % (proto or PROTO_A) if needs_ctx(spec) else ''
     ident = '%s%s %s' % (nm, at, shown)
     case = {'op': 'value', 'spec': spec, 'value': v, 'proto': proto}
+    if obj:
+        fam += obj['tag']
+        ident += obj['where']
+        nm += obj['where']
+        case = obj['case']
     judge_send(R, spec, both(do_send, T, v, spec, proto, 'send'), want, rank,
-               ident, case, shown)
+               ident, case, shown, fam, nm)
     for via, res in both(do_read, T, want + SENT, spec, proto, 'read'):
         R.ctx.outcome('dec-' + (res[0] if res[0] != 'raise'
                                 else 'raise:' + res[1]))
@@ -1235,6 +1290,428 @@ def chunks(seq, n):
     return [seq[i:i + n] for i in range(0, len(seq), n)]
 
 
+# -- construction histories -----------------------------------------------------
+# The parameterised types are objects: FixedPoint(int_type[, fractional_bits])
+# and PrefixedArray(length_type, element_type).  Everywhere else each type
+# object is built once (build()) and kept.  Here several objects of one kind
+# are constructed one after the other - positionally and by keyword, the same
+# parameters twice, before and after other objects have been used - and
+# after the construction steps every object made so far, old and new, must
+# still encode and decode with ITS OWN parameters.
+# A parameterisation is [kind, positional arguments, keyword arguments] with
+# type names for types and nested parameterisations for nested arrays.
+
+def fixed_params(base, other):
+    return [['FixedPoint', [base], {}],
+            ['FixedPoint', [base, 12], {}],
+            ['FixedPoint', [base], {'fractional_bits': 12}],
+            ['FixedPoint', [base], {'fractional_bits': 3}],
+            ['FixedPoint', [], {'integer_type': base, 'fractional_bits': 8}],
+            ['FixedPoint', [other, 12], {}]]
+
+
+CONSTRUCT_GROUPS = {
+    'FixedPoint over Byte': fixed_params('Byte', 'Short'),
+    'FixedPoint over Short': fixed_params('Short', 'Integer'),
+    'FixedPoint over Integer': fixed_params('Integer', 'Short'),
+    'PrefixedArray': [
+        ['PrefixedArray', ['VarInt', 'Byte'], {}],
+        ['PrefixedArray', ['Short', 'Byte'], {}],
+        ['PrefixedArray', ['VarInt'], {'element_type': 'Short'}],
+        ['PrefixedArray', [], {'length_type': 'Integer',
+                               'element_type': 'Byte'}],
+        ['PrefixedArray', ['VarInt', 'String'], {}],
+        ['PrefixedArray', [], {'length_type': 'Short', 'element_type':
+                               ['PrefixedArray', ['VarInt', 'Byte'], {}]}]],
+}
+PAR_NAMES = {'FixedPoint': ('integer_type', 'fractional_bits'),
+             'PrefixedArray': ('length_type', 'element_type')}
+
+
+def construct(par):
+    kind, a, k = par
+    T = env().T
+
+    def val(x):
+        if isinstance(x, str):
+            return getattr(T, x)
+        return construct(x) if isinstance(x, list) else x
+    return getattr(T, kind)(*[val(x) for x in a],
+                            **{n: val(x) for n, x in sorted(k.items())})
+
+
+def par_spec(par):
+    """The spec (what the reference is asked for) of a parameterisation,
+    worked out from the documented signatures."""
+    kind, a, k = par
+    d = dict(zip(PAR_NAMES[kind], a))
+    if set(d) & set(k) or set(k) - set(PAR_NAMES[kind]):
+        raise ToolError('bad parameterisation %r' % (par,))
+    d.update(k)
+    if kind == 'FixedPoint':
+        return ('FixedPoint', d['integer_type'], d.get('fractional_bits'))
+    return ('PrefixedArray',) + tuple(
+        par_spec(x) if isinstance(x, list) else x
+        for x in (d['length_type'], d['element_type']))
+
+
+def par_text(par):
+    kind, a, k = par
+
+    def t(x):
+        return par_text(x) if isinstance(x, list) else str(x)
+    return '%s(%s)' % (kind, ', '.join(
+        [t(x) for x in a] +
+        ['%s=%s' % (n, t(x)) for n, x in sorted(k.items())]))
+
+
+def construct_values(spec):
+    """[(value, rank)] - small, but every value tells the parameters apart"""
+    fx = fixed_of(spec)
+    if fx:
+        w = INTS[fx[0]][0]
+        hi = (1 << (8 * w - 1)) - 1
+        raws = sorted({0, 1, -1, 3, 37, -86, 48, hi // 3, hi, -hi - 1})
+        return [(math.ldexp(r, -fx[1]), abs(r) * 8) for r in raws
+                if -hi - 1 <= r <= hi]
+    el = spec[2]
+    if not isinstance(el, str):
+        return [(v, None) for v in ([], [[]], [[1, -2], [], [3]])]
+    pool = POOLS.get(el) or [0, 1, -1, 300, -32768, 0x1234]
+    return [(v, None) for v in ([], pool[:1], pool[:3], list(pool))]
+
+
+def constructions(thorough):
+    """[(group, [3 parameterisation indices], [use after step 1, 2, 3])]:
+    every sequence of 3 constructions (repetitions included) out of the 6
+    parameterisations of each group, with every object made so far used
+    after every step / only after the last (thorough: every subset of the
+    first two steps)."""
+    masks = [[1, 1, 1], [0, 0, 1]] + ([[0, 1, 1], [1, 0, 1]] if thorough
+                                      else [])
+    out = []
+    for g in sorted(CONSTRUCT_GROUPS):
+        n = len(CONSTRUCT_GROUPS[g])
+        for i in range(n):
+            for j in range(n):
+                for k in range(n):
+                    for m in masks:
+                        out.append([g, [i, j, k], m])
+    return out
+
+
+def run_construction(R, item, before=()):
+    ctx = R.ctx
+    g, idx, mask = item
+    pars = [CONSTRUCT_GROUPS[g][i] for i in idx]
+    case = {'op': 'construct', 'item': item, 'before': list(before)}
+    hist = '%s; used after step %s' % (
+        ' ; '.join(par_text(p) for p in pars),
+        ','.join(str(i + 1) for i in range(3) if mask[i]))
+    ctx.count()
+    ctx.note_distinct(1)
+    if len(set(idx)) < 3:
+        ctx.cls('construction history: the same parameterisation twice')
+    if any(p[2] for p in pars):
+        ctx.cls('construction history: keyword arguments')
+    if mask[0] or mask[1]:
+        ctx.cls('construction history: an object used before a later '
+                'construction')
+    if not mask[0]:
+        ctx.cls('construction history: two objects made before the first '
+                'use of either')
+    objs = []
+    for step, par in enumerate(pars):
+        try:
+            objs.append((par, construct(par)))
+        except Exception as e:
+            R.fail('%s construction: raises %s' % (par[0], exc_name(e)), step,
+                   hist, '%s raised %s: %s (step %d of the construction '
+                   'history %s)' % (par_text(par), exc_name(e), e, step + 1,
+                                    hist), case)
+            return
+        if not mask[step]:
+            continue
+        for j, (pj, Tj) in enumerate(objs):
+            spec = par_spec(pj)
+            obj = {'T': Tj, 'tag': ' object among others',
+                   'where': ' [object %d = %s, after step %d of the '
+                            'construction history %s]'
+                            % (j + 1, par_text(pj), step + 1, hist),
+                   'case': case}
+            for v, rank in construct_values(spec):
+                ctx.count()
+                check_value(R, spec, v, rank=rank, obj=obj)
+
+
+# -- failure and re-entrancy histories ------------------------------------------
+# A codec call must not leave anything behind for the next one: not when the
+# sink's send() (the stream's read()) raised in the middle of it, and not
+# when the sink's send() itself encodes a value while the outer call is in
+# progress (a length-prefixing or framing wrapper).  One representative of
+# each type family, all ordered pairs (failing operation, next operation).
+
+REP_SPECS = ('Boolean', 'Byte', 'Integer', 'Long', 'Double', 'VarInt',
+             'String', 'UUID', 'Angle', ('FixedPoint', 'Short', 12),
+             'Position', 'VarIntPrefixedByteArray', 'ShortPrefixedByteArray',
+             ('PrefixedArray', 'Short', 'String'))
+SEND_EXC = ('BrokenPipeError', 'InterruptedError', 'KeyError')
+READ_EXC = ('ConnectionResetError', 'InterruptedError', 'KeyError',
+            'end of stream')
+
+
+def reps():
+    out = []
+    for want in REP_SPECS:
+        t = [t for t in TWINS if tup(t[0]) == want and len(t) == 3]
+        if len(t) != 1:
+            raise ToolError('no representative values for %r' % (want,))
+        out.append(t[0])
+    return out
+
+
+def make_exc(kind):
+    return {'BrokenPipeError': BrokenPipeError(32, 'Broken pipe'),
+            'ConnectionResetError': ConnectionResetError(
+                104, 'Connection reset by peer'),
+            'InterruptedError': InterruptedError(
+                4, 'Interrupted system call'),
+            'KeyError': KeyError('transport')}[kind]
+
+
+class FaultSink(object):
+    """send() raises at its k-th call, copies into a PacketBuffer otherwise"""
+
+    def __init__(self, k, kind):
+        self.pb, self.k, self.kind = env().PacketBuffer(), k, kind
+        self.calls, self.failed = 0, False
+
+    def send(self, data):
+        self.calls += 1
+        if self.calls == self.k:
+            self.failed = True
+            raise make_exc(self.kind)
+        self.pb.send(data)
+
+
+class FaultStream(object):
+    """read() raises at its k-th call ('end of stream': returns nothing from
+    then on), hands out the data otherwise"""
+
+    def __init__(self, data, k, kind):
+        self.pb = env().PacketBuffer()
+        self.pb.send(data)
+        self.pb.reset_cursor()
+        self.k, self.kind, self.calls, self.failed = k, kind, 0, False
+
+    def read(self, n=-1):
+        self.calls += 1
+        if self.calls >= self.k and self.kind == 'end of stream':
+            self.failed = True
+            return b''
+        if self.calls == self.k:
+            self.failed = True
+            raise make_exc(self.kind)
+        return self.pb.read(n) if n is not None and n >= 0 \
+            else self.pb.read()
+
+
+class ReSink(object):
+    """A framing wrapper: before it forwards a chunk to the inner buffer it
+    encodes a value of its own into it - while the outer encoder that called
+    send() is still in progress."""
+
+    def __init__(self, inner, emit):
+        self.inner, self.emit, self.chunks = inner, emit, []
+
+    def send(self, data):
+        self.chunks.append(bytes(data))
+        if len(self.chunks) > 4096:
+            raise ValueError('more than 4096 send calls')
+        self.emit(self.inner)
+        self.inner.send(data)
+
+
+def rep_value(spec, v):
+    v = _unhex(v)
+    return _tuples(spec, v) if needs_ctx(spec) else v
+
+
+def send_into(spec, v, sink, mode=None):
+    """-> 'ok' | 'raise <name>' | 'horizon'"""
+    T = build(spec)
+    mode = mode or ('ctx' if needs_ctx(spec) else 'plain')
+    try:
+        if mode == 'ctx':
+            bounded(T.send_with_context, v, sink, context(None))
+        else:
+            bounded(T.send, v, sink)
+        return 'ok'
+    except Horizon:
+        return 'horizon'
+    except Exception as e:
+        return 'raise ' + exc_name(e)
+
+
+def read_from(spec, stream, mode=None):
+    """-> ('value', v) | ('raise', name)"""
+    T = build(spec)
+    mode = mode or ('ctx' if needs_ctx(spec) else 'plain')
+    try:
+        if mode == 'ctx':
+            return ('value', T.read_with_context(stream, context(None)))
+        return ('value', T.read(stream))
+    except Exception as e:
+        return ('raise', exc_name(e))
+
+
+def fault_histories(thorough):
+    n = len(REP_SPECS)
+    ks = (1, 2, 3) if thorough else (1, 2)
+    out = []
+    for a in range(n):
+        for b in range(n):
+            for nxt in ('send', 'read'):
+                for k in ks:
+                    out += [['sendfail', a, b, nxt, k, e] for e in SEND_EXC]
+                    out += [['readfail', a, b, nxt, k, e] for e in READ_EXC]
+            out.append(['reenter', a, b, 'send', 0, ''])
+    return out
+
+
+def run_fault(R, item, before=()):
+    ctx = R.ctx
+    kind, ia, ib, nxt, k, exc = item
+    R_ = reps()
+    sa, va, _ = R_[ia]
+    sb, _, vb = R_[ib]
+    sa, sb = tup(sa), tup(sb)
+    va, vb = rep_value(sa, va), rep_value(sb, vb)
+    ea, eb = twin_encoding(sa, va, None), twin_encoding(sb, vb, None)
+    case = {'op': 'fault', 'item': item, 'before': list(before)}
+    PB = env().PacketBuffer
+    ctx.count()
+    ctx.note_distinct(1)
+    if kind == 'sendfail':
+        sink = FaultSink(k, exc)
+        r = send_into(sa, va, sink)
+        pre = 'after %s.send(%s) into a sink whose send() raised %s at ' \
+            'call %d' % (name(sa), short(va), exc, k)
+        ctx.outcome('send into a failing sink: %s' % r)
+        if sink.failed and r == 'raise ' + exc:
+            ctx.cls('history: send failed with %s' % exc)
+        if not sink.failed:
+            ctx.cls('history: fault point beyond the operation')
+    elif kind == 'readfail':
+        st = FaultStream(ea + SENT, k, exc)
+        r = read_from(sa, st)
+        pre = 'after %s.read(%s) from a stream whose read() %s at call %d' \
+            % (name(sa), hexs(ea), 'returned nothing' if
+               exc == 'end of stream' else 'raised ' + exc, k)
+        ctx.outcome('read from a failing stream: %s' % ':'.join(r[:1] + (
+            r[1:] if r[0] == 'raise' else ())))
+        if st.failed and r[0] == 'raise':
+            ctx.cls('history: read failed with %s' % exc)
+        if not st.failed:
+            ctx.cls('history: fault point beyond the operation')
+    else:
+        inner = PB()
+        sink = ReSink(inner, lambda s: send_into(sb, vb, s))
+        r = send_into(sa, va, sink)
+        pre = 'after %s.send(%s) into a sink whose send() encodes %s(%s) ' \
+            'into the buffer before each chunk' % (name(sa), short(va),
+                                                   name(sb), short(vb))
+        ctx.cls('history: re-entrant send')
+        got = inner.get_writable()
+        outer = b''.join(sink.chunks)
+        want = b''.join(eb + c for c in sink.chunks)
+        if r != 'ok' or outer != ea or got != want:
+            R.fail('%s encode into a re-entrant sink: wrong bytes'
+                   % family(sa), len(ea), '%s / %s' % (name(sa), name(sb)),
+                   '%s.send(%s) into a sink whose send() first encodes '
+                   '%s(%s) into the inner buffer and then forwards the '
+                   'chunk: the call gave %s, the sink received %s (the '
+                   'protocol prescribes %s), the inner buffer holds %s '
+                   '(expected, for the chunks received, %s)'
+                   % (name(sa), short(va), name(sb), short(vb), r,
+                      hexs(outer), hexs(ea), hexs(got), hexs(want)), case)
+    # the next operation, and those after it, must be right again
+    modes = ['ctx'] if needs_ctx(sb) else ['plain', 'ctx']
+    steps = [(nxt, sb, vb, eb, m) for m in modes]
+    steps += [(d, sa, va, ea, None) for d in ('send', 'read')]
+    for i, (d, spec, v, enc, mode) in enumerate(steps):
+        via = ' via %s_with_context' % d if mode == 'ctx' and \
+            not needs_ctx(spec) else ''
+        ident = '%s: %s %s%s' % (pre, d, name(spec), via)
+        ctx.count()
+        if d == 'send':
+            buf = PB()
+            r = send_into(spec, v, buf, mode)
+            got = buf.get_writable()
+            ctx.outcome('send after a history: %s' % r)
+            if r != 'ok' or got != enc:
+                R.fail('%s encode after a %s: wrong bytes'
+                       % (family(spec), FAULT_TEXT[kind]), i, ident,
+                       '%s, operation %d afterwards: %s.send(%s)%s into a '
+                       'fresh buffer gave %s and wrote %s, the protocol '
+                       'prescribes %s' % (pre, i + 1, name(spec), short(v),
+                                          via, r, hexs(got), hexs(enc)), case)
+        else:
+            buf = PB()
+            buf.send(enc + SENT)
+            buf.reset_cursor()
+            r = read_from(spec, buf, mode)
+            left = len(buf.read())
+            ctx.outcome('read after a history: %s' % r[0])
+            if r[0] != 'value' or not same(spec, r[1], v) or \
+                    left != len(SENT):
+                R.fail('%s decode after a %s: wrong result'
+                       % (family(spec), FAULT_TEXT[kind]), i, ident,
+                       '%s, operation %d afterwards: %s.read(%s + sentinel '
+                       'a55a)%s from a fresh buffer gave %s and left %d '
+                       'byte(s), expected %s and 2' % (
+                           pre, i + 1, name(spec), hexs(enc), via,
+                           short(r[1:]), left, short(v)), case)
+
+
+FAULT_TEXT = {'sendfail': 'failed send', 'readfail': 'failed read',
+              'reenter': 're-entrant send'}
+FORKED = {'construct': run_construction, 'fault': run_fault}
+FORK_CHUNK = {'construct': 8, 'fault': 23}
+
+
+def _forked_child(proto, kind, items):
+    sub = Ctx(*proto)
+    R = Rec(sub)
+    for j, item in enumerate(items):
+        FORKED[kind](R, item, items[:j])
+    R.flush()
+    return sub.export()
+
+
+def w_forked(ctx, task):
+    """task: (kind, items) - the items are executed one after the other in
+    ONE fresh fork of a process that has only imported the library"""
+    kind, items = task
+    env()
+    context(None)
+    ctx.absorb(explore.in_child(
+        _forked_child, (ctx.pid, ctx.tier, ctx.seed, ctx.level), kind,
+        items))
+    ctx.cls('histories: fresh process')
+
+
+def forked_tasks(ctx):
+    out = []
+    for kind, items in (('construct', constructions(ctx.thorough)),
+                        ('fault', fault_histories(ctx.thorough))):
+        n = 1 if ctx.thorough and kind == 'construct' else FORK_CHUNK[kind]
+        out += [(kind, items[i:i + n]) for i in range(0, len(items), n)]
+        ctx.extra.setdefault('histories', {})[kind] = {
+            'histories': len(items), 'per fresh process': n}
+    return out
+
+
 def build_tasks(ctx):
     rnd = random.Random(ctx.seed)
     th = ctx.thorough
@@ -1373,7 +1850,14 @@ REQUIRED_CLASSES = [
     'array nested', 'array of context-requiring elements',
     'prefixes: all cuts', 'prefixes: sampled cuts (long encoding)',
     'dispatch scenario',
-]
+    'construction history: the same parameterisation twice',
+    'construction history: keyword arguments',
+    'construction history: an object used before a later construction',
+    'construction history: two objects made before the first use of either',
+    'histories: fresh process', 'history: re-entrant send',
+    'history: fault point beyond the operation',
+] + ['history: send failed with %s' % e for e in SEND_EXC] \
+  + ['history: read failed with %s' % e for e in READ_EXC]
 
 
 # -- concurrent encoders / decoders ---------------------------------------------
@@ -1387,7 +1871,8 @@ REQUIRED_CLASSES = [
 RACE_MODULES = ('minecraft.networking.types.basic',
                 'minecraft.networking.types.utility',
                 'minecraft.networking.types.enum',
-                'minecraft.networking.packets.packet_buffer')
+                'minecraft.networking.packets.packet_buffer',
+                'minecraft.utility')
 RACE_OPS = [
     ('send', 'VarInt', 16702650), ('send', 'VarInt', 300),
     ('send', 'VarInt', 1), ('send', 'VarLong', (1 << 40) + 3),
@@ -1600,6 +2085,128 @@ def warm_up(n):
     return bad
 
 
+# Context dispatch: T.send_with_context / T.read_with_context of every type
+# that does not define its own go through ONE descriptor object
+# (minecraft.utility.class_and_instancemethod) that binds the generic
+# function to the class or to the instance it was looked up on.  Two threads
+# doing that for two DIFFERENT types at the same time must each reach their
+# own type, and so must every later single-threaded call: whatever the
+# descriptor may remember is shared by all types and outlives the two calls.
+# (kind, spec, value, 'class' | 'instance': what the method is looked up on)
+CTX_OPS = [
+    ('send', 'Integer', 258, 'class'),
+    ('send', 'Short', -300, 'class'),
+    ('read', 'Integer', 0x01020304, 'class'),
+    ('send', ('FixedPoint', 'Short', 12), 0.5, 'instance'),
+    ('send', 'String', 'h\xe9', 'class'),
+    ('read', 'UnsignedShort', 513, 'instance'),
+    ('send', ('PrefixedArray', 'VarInt', 'Byte'), [-2], 'instance'),
+    ('read', 'VarLong', 300, 'class'),
+]
+CTX_THIRD = [('send', 'Long', 0x0102030405060708, 'class'),
+             ('read', 'Double', 0.1, 'instance')]
+# quick: class/class (send/send, send/read, read/read), class/instance,
+# instance/instance, class/array element (looked up on the class)
+CTX_QUICK = [(0, 1), (1, 2), (0, 3), (3, 5), (1, 6), (2, 7)]
+
+
+def ctx_pairs(thorough):
+    """[(op a, op b, third op, order of the three calls afterwards)]"""
+    if not thorough:
+        pairs = CTX_QUICK
+    else:
+        pairs = [(i, j) for i in range(len(CTX_OPS))
+                 for j in range(i + 1, len(CTX_OPS))
+                 if tup(CTX_OPS[i][1]) != tup(CTX_OPS[j][1])]
+    out = []
+    for n, (i, j) in enumerate(pairs):
+        third = CTX_THIRD[n % 2]
+        # the first call afterwards is the one that meets what the race left
+        # behind (and may repair it): each of the two types gets to be first;
+        # thorough: the third type too
+        orders = [[0, 1, 2], [1, 0, 2]] + ([[2, 0, 1]] if thorough else [])
+        out += [(list(CTX_OPS[i]), list(CTX_OPS[j]), list(third), o)
+                for o in orders]
+    return out
+
+
+def ctx_expected(op):
+    kind, spec, v = op[0], tup(op[1]), op[2]
+    enc = twin_encoding(spec, v, None).hex()
+    return (enc, enc) if kind == 'send' else ('ok', len(SENT))
+
+
+def ctx_op(op):
+    kind, spec, v, how = op[0], tup(op[1]), op[2], op[3]
+    T = build(spec)
+    if how == 'instance' and isinstance(T, type):
+        T = T()
+    cctx = context(None)
+    enc = twin_encoding(spec, v, None)
+    PB = env().PacketBuffer
+
+    def send():
+        sink = RaceSink(PB())
+        T.send_with_context(v, sink, cctx)
+        return sink.observed()
+
+    def read():
+        buf = PB()
+        buf.send(enc + SENT)
+        buf.reset_cursor()
+        got = T.read_with_context(buf, cctx)
+        return ('ok' if same(spec, got, v) else short(got), len(buf.read()))
+    return send if kind == 'send' else read
+
+
+def ctx_text(o):
+    T = name(tup(o[1]))
+    return '%s%s.%s_with_context(%s)' % (
+        T, '()' if o[3] == 'instance' and isinstance(o[1], str) else '',
+        o[0], short(o[2]) if o[0] == 'send' else
+        hexs(twin_encoding(o[1], o[2], None)))
+
+
+def dispatch_body(W, params):
+    env()
+    ops = list(params['ops']) + [params['third']]
+    fns = [ctx_op(o) for o in ops]
+    want = [('ok', ctx_expected(o)) for o in ops]
+    alone = _tries(fns[:2])         # (the third type is not touched yet)
+    got = interleave.race(W, fns[:2])
+    viol = []
+    both_ = '%s and %s' % (ctx_text(ops[0]), ctx_text(ops[1]))
+    for i in (0, 1):
+        if alone[i] != want[i]:
+            viol.append(('before concurrent use %s_with_context of %s '
+                         'differs' % (ops[i][0], name(tup(ops[i][1]))),
+                         '%s alone gave %s, the reference says %s'
+                         % (ctx_text(ops[i]), short(alone[i]),
+                            short(want[i]))))
+        if got[i] != want[i]:
+            viol.append(('concurrent %s_with_context of %s differs'
+                         % (ops[i][0], name(tup(ops[i][1]))),
+                         '%s run concurrently with %s gave %s, the '
+                         'reference says %s (a send is observed twice: the '
+                         'bytes copied at each socket.send() call and the '
+                         'objects passed to send() read afterwards; a read '
+                         'as (value ok?, bytes left of the 2 sentinel bytes))'
+                         % (ctx_text(ops[i]), ctx_text(ops[1 - i]),
+                            short(got[i]), short(want[i]))))
+    for n, i in enumerate(params['after']):
+        res = _tries([fns[i]])[0]
+        if res != want[i]:
+            viol.append(('after concurrent *_with_context of %s and %s: '
+                         '%s_with_context of %s differs'
+                         % (name(tup(ops[0][1])), name(tup(ops[1][1])),
+                            ops[i][0], name(tup(ops[i][1]))),
+                         'after %s had run concurrently, single-threaded '
+                         'call number %d: %s gave %s, the reference says %s'
+                         % (both_, n + 1, ctx_text(ops[i]), short(res),
+                            short(want[i]))))
+    return {'outcome': tuple(got), 'violations': viol}
+
+
 def _tries(ops):
     out = []
     for f in ops:
@@ -1616,6 +2223,8 @@ def op_text(o):
 
 
 def race_body(W, params):
+    if params.get('disp'):
+        return dispatch_body(W, params)
     env()
     ops = [race_op(o) for o in params['ops']]
     alone = _tries(ops)
@@ -1659,8 +2268,10 @@ def race_prepare(params):
     # level pair happens to run first): outside windows the hooked callbacks
     # switch themselves off, which makes the warm-up histories cheap
     interleave.install(RACE_MODULES, instructions=True)
-    for o in params['ops']:
+    for o in params['ops'] + ([params['third']] if 'third' in params
+                              else []):
         build(tup(o[1]))
+    context(None)
     if params.get('warm'):
         warm_material(params['warm'])
 
@@ -1680,6 +2291,8 @@ C_TWIN = 'same operation twice with two values, all schedules'
 C_WARM = 'pair of byte-array calls after a warm-up history, line points'
 C_WINS = 'pair of byte-array calls after a warm-up history, instruction ' \
     'points'
+C_DISP = 'pair of *_with_context calls on two types, instruction points'
+C_DISL = 'pair of *_with_context calls on two types, line points'
 
 
 def run_races(ctx, ex):
@@ -1696,6 +2309,14 @@ def run_races(ctx, ex):
             jobs.append(({'ops': [a, b], 'warm': WARM}, bound, C_WARM, True))
         jobs.append(({'ops': [a, b], 'warm': WARM, 'ins': 1}, 1, C_WINS,
                      True))
+    # Context dispatch on two types: cold as well (what a torn update leaves
+    # behind persists in the process), every instruction a point
+    quick = [(x[0], x[1], x[3]) for x in ctx_pairs(False)]
+    for a, b, third, after in ctx_pairs(ctx.thorough):
+        p = {'ops': [a, b], 'third': third, 'after': after, 'disp': 1}
+        jobs.append((dict(p, ins=1), 1, C_DISP, True))
+        if bound > 1 and (a, b, after) in quick:
+            jobs.append((p, bound, C_DISL, True))
     for i in range(len(RACE_OPS)):
         for j in range(i + 1, len(RACE_OPS)):
             jobs.append(({'ops': [list(RACE_OPS[i]), list(RACE_OPS[j])]},
@@ -1708,14 +2329,16 @@ def run_races(ctx, ex):
                          cold=cold)
         execs[cls] = execs.get(cls, 0) + res.execs
         ctx.cls(cls)
-    for cls in (C_PAIR, C_TWIN, C_WINS) + ((C_WARM,) if bound > 1 else ()):
+    for cls in (C_PAIR, C_TWIN, C_WINS, C_DISP) + (
+            (C_WARM, C_DISL) if bound > 1 else ()):
         if not ctx.classes.get(cls):
             raise ToolError('vacuity guard: class %r was never exercised'
                             % cls)
     ctx.extra['concurrent'] = {
         'operations': len(RACE_OPS),
         'pairs': {cls: sum(1 for j in jobs if j[2] == cls)
-                  for cls in (C_PAIR, C_TWIN, C_WARM, C_WINS)},
+                  for cls in (C_PAIR, C_TWIN, C_WARM, C_WINS, C_DISP,
+                              C_DISL)},
         'preemption_bound': bound, 'preemption_bound_instruction_points': 1,
         'warm_up_sizes': WARM,
         'schedules_executed': execs,
@@ -1734,9 +2357,24 @@ def run(ctx):
 
 def _run(ctx, ex):
     env()
+    # histories first: their forks start from a process that has imported
+    # the library and executed nothing of it
+    hctx = ctx.fork()
+    hctx.pmap(w_forked, forked_tasks(ctx))
     tasks = build_tasks(ctx)
     ctx.pmap(worker, tasks)
     report(ctx)
+    # what the histories found is reported unless the plain cases already
+    # fail (then 'X is wrong after a history' says nothing new)
+    fails = hctx.extra.pop('_fails', [])
+    plain_bad = bool(ctx.violations)
+    ctx.absorb(hctx)
+    if not plain_bad:
+        ctx.extra['_fails'] = fails
+        report(ctx)
+    elif fails:
+        ctx.extra['history_failures_not_reported'] = sum(
+            n for _, n, _ in fails)
     if not ctx.violations:
         run_races(ctx, ex)
     for c in REQUIRED_CLASSES:
@@ -1773,7 +2411,11 @@ def replay(ctx, case):
         return
     op = case['op']
     spec = tup(case.get('spec'))
-    if op == 'value':
+    if op in ('construct', 'fault'):
+        items = list(case.get('before', ())) + [case['item']]
+        for j, item in enumerate(items):
+            FORKED[op](R, item, items[:j])
+    elif op == 'value':
         v = case['value']
         if spec == 'Position' or needs_ctx(spec):
             v = _tuples(spec, v)
